@@ -66,6 +66,78 @@ Fixpoint greedy_sel_aux (p : params) (cs : codes) (x : N) (prev : list (list N *
 Definition greedy_sel (p : params) (cs : codes) (start : N) (g : list (list N)) : list N :=
   greedy_sel_aux p cs start [] g.
 
+(** ** Runs of the greedy rule under an arbitrary tie-break
+
+    [greedy_sel] keeps the FIRST candidate of minimal cost.  Which of several equally cheap
+    candidates is kept is irrelevant for the bounds of C06, so the correspondence with the
+    implementation is stated against the set of all selections the greedy rule can produce
+    when ties among candidates of equal minimal cost are broken arbitrarily.  The checker
+    below replays the bookkeeping of [greedy_sel_aux] (previous lists, most recent first,
+    with their reference counts; the count of the current node follows from the choice in
+    [sel]) and uses the model's own cost estimate [fields_len cs (node_fields ..)]. *)
+
+(** every admissible candidate (count below [max_ref], non-empty list) among the first [n]
+    entries of [prev], at distances [delta, delta+1, ...], costs at least [b] bits *)
+Fixpoint cand_all_ge (p : params) (cs : codes) (x : N) (cur : list N)
+  (delta : N) (n : nat) (prev : list (list N * N)) (b : N) : bool :=
+  match n, prev with
+  | S n', (rl, cnt) :: prev' =>
+    (if exceeds (max_ref p) cnt then true
+     else match rl with
+          | [] => true
+          | _ :: _ => b <=? fields_len cs (node_fields p x cur delta rl)
+          end)
+    && cand_all_ge p cs x cur (delta + 1) n' prev' b
+  | _, _ => true
+  end.
+
+(** [Some c]: distance [d] is a possible outcome of the greedy rule for this node, and [c]
+    is the reference count the node gets; [None]: it is not.
+    - [d = 0] (no reference) is an outcome iff no admissible candidate is strictly cheaper
+      than the copy-less encoding (a candidate must be strictly cheaper to be taken);
+    - [d >= 1] is an outcome iff [d <= min (window, number of previous nodes)], the list at
+      distance [d] is admissible, it is strictly cheaper than the copy-less encoding and no
+      admissible candidate is strictly cheaper than it. *)
+Definition greedy_choice_ok (p : params) (cs : codes) (x : N) (cur : list N)
+  (prev : list (list N * N)) (d : N) : option N :=
+  if window p =? 0 then (if d =? 0 then Some 0 else None)
+  else
+    let base := fields_len cs (node_fields p x cur 0 []) in
+    let n := Nat.min (N.to_nat (window p)) (length prev) in
+    if d =? 0 then (if cand_all_ge p cs x cur 1 n prev base then Some 0 else None)
+    else if d <=? N.of_nat n then
+      match nth_opt prev (N.to_nat d - 1) with
+      | Some (rl, cnt) =>
+        if exceeds (max_ref p) cnt then None
+        else match rl with
+             | [] => None
+             | _ :: _ =>
+               let bits := fields_len cs (node_fields p x cur d rl) in
+               if (bits <? base) && cand_all_ge p cs x cur 1 n prev bits
+               then Some (cnt + 1) else None
+             end
+      | None => None
+      end
+    else None.
+
+Fixpoint greedy_run_aux (p : params) (cs : codes) (x : N) (prev : list (list N * N))
+  (g : list (list N)) (sel : list N) : bool :=
+  match g, sel with
+  | [], [] => true
+  | cur :: g', d :: sel' =>
+    match greedy_choice_ok p cs x cur prev d with
+    | Some c => greedy_run_aux p cs (x + 1) ((cur, c) :: prev) g' sel'
+    | None => false
+    end
+  | _, _ => false
+  end.
+
+(** [sel] is an output of the greedy rule on [g] under some tie-break among candidates of
+    equal minimal cost *)
+Definition greedy_run_ok (p : params) (cs : codes) (start : N) (g : list (list N))
+  (sel : list N) : bool :=
+  greedy_run_aux p cs start [] g sel.
+
 (** * Zuckerli ([BvCompZ]) *)
 
 Definition get {A} (d : A) (l : list A) (i : nat) : A := nth i l d.
